@@ -143,7 +143,7 @@ def run_shard(ctx):
     from mindsdb_sql.planner.step_result import Result
     from mindsdb_sql.parser.ast import Identifier, Select, Star
     acc = ctx.acc
-    base = base_statements(ctx.seed, 2500 if ctx.tier == 'quick' else 20000)
+    base = base_statements(ctx.seed, 2500 if ctx.tier == 'quick' else 50000)
     # long statements: what is compared / copied must not depend on the length of the text
     base += [('long', 'SELECT ' + ', '.join(f'col_{j} + {j} AS a{j}' for j in range(n)) + ' FROM tbl WHERE ' + ' AND '.join(f'(col_{j} > {j})' for j in range(n // 2)))
              for n in (30, 80, 200)]
@@ -220,7 +220,7 @@ def run_shard(ctx):
             acc.fail(dict(sig, tree='identifier-with-sub_select'), det)
         acc.count('sub_select_identifiers')
     # plans -------------------------------------------------------------------------------------------
-    n = 700 if ctx.tier == 'quick' else 8000
+    n = 700 if ctx.tier == 'quick' else 20000
     prev_plan = None
     for i in range(n):
         if not ctx.mine(i) or ctx.out_of_time():
